@@ -96,6 +96,10 @@ class Template(object):
         placeholder_strings = re.findall(self.TEMPLATE_PATTERN, self._template)
 
         for placeholder in placeholder_strings:
+            if '{' in placeholder or '}' in placeholder:
+                # Curly brackets delimit scopes, a scope cannot begin or end inside a placeholder.
+                raise EDXMLOntologyValidationError('Placeholder contains curly brackets: %s' % placeholder)
+
             formatter, _ = self._parse_placeholder(placeholder)
 
             if formatter is not None and formatter not in self.KNOWN_FORMATTERS:
